@@ -665,6 +665,15 @@ pub fn judge_l(case: &LCase, end: &SimEnd, o: &LObs) -> LVerdict {
                 let mut toks = Vec::new();
                 tokens_in(&val, &mut toks);
                 for t in toks {
+                    if let Some(rest) = t.strip_prefix('k') {
+                        if rest.split_once('-').map_or(false, |(num, _)| num.parse::<usize>().is_ok()) {
+                            v.push(viol(
+                                "C13",
+                                "foreign-token",
+                                format!("raw connection {} received a reply carrying token {:?} of a real client", i, t),
+                            ));
+                        }
+                    }
                     if let Some(rest) = t.strip_prefix('c') {
                         if let Some((num, _)) = rest.split_once('-') {
                             if let Ok(k) = num.parse::<usize>() {
@@ -718,6 +727,46 @@ pub fn judge_l(case: &LCase, end: &SimEnd, o: &LObs) -> LVerdict {
         } else {
             ObsEnd::Open { tail: None, iface: None }
         };
+        // a complete malformed message was on the wire well before the peers were released, the peer
+        // itself kept the connection open: the *server* has to end it, and not only once the peer
+        // finally goes away
+        if !co.script_closed && !faulted {
+            // only when the model leaves no alternative: every way of reading the stream ends at a
+            // malformed message (nothing gray before it, no upgrade that turns the rest into payload)
+            let first_bad = if !model.overflow
+                && !model.alts.is_empty()
+                && model.alts.iter().all(|a| matches!(a.end, crate::model::End::Closed { malformed: true, .. }))
+            {
+                model
+                    .alts
+                    .iter()
+                    .filter_map(|a| match a.end {
+                        crate::model::End::Closed { at, .. } => Some(at),
+                        _ => None,
+                    })
+                    .max()
+            } else {
+                None
+            };
+            if let (Some(bad), Some((rel, _))) = (first_bad, o.released_at) {
+                let sent_by_checkpoint = co.sent_at_checkpoint >= model.msgs[bad].end;
+                let ended_before_release = match (co.srv_shutdown, co.srv_closed) {
+                    (Some((s, _)), _) if s < rel => true,
+                    (_, Some((s, _))) if s < rel => true,
+                    _ => false,
+                };
+                if sent_by_checkpoint && !ended_before_release {
+                    v.push(viol(
+                        "C06",
+                        "not-closed-after-malformed",
+                        format!(
+                            "connection {}: message #{} is malformed and the peer kept the connection open, but at quiescence the server had not ended the connection (it only did once the peer left)",
+                            i, bad
+                        ),
+                    ));
+                }
+            }
+        }
         let single_attr = !multi;
         let obs = StreamObs {
             wire: &co.rx,
@@ -897,6 +946,26 @@ fn conn_level_err(out: &str) -> bool {
 fn judge_real_client(case: &LCase, k: usize, rc: &RealClient, ro: &RealObs, v: &mut Vec<Violation>, probes: &mut Vec<(&'static str, u64)>) {
     if !ro.accepted {
         return;
+    }
+    {
+        let (frames, _) = split_nul(&ro.rx);
+        for f in &frames {
+            if let Ok(val) = serde_json::from_slice::<Value>(f) {
+                let mut toks = Vec::new();
+                tokens_in(&val, &mut toks);
+                for t in toks {
+                    let own = format!("k{}-", k);
+                    let tagged = (t.starts_with('k') || t.starts_with('c')) && t[1..].split_once('-').map_or(false, |(n, _)| n.parse::<usize>().is_ok());
+                    if tagged && !t.starts_with(&own) {
+                        v.push(viol(
+                            "C13",
+                            "foreign-token",
+                            format!("real client {} received a reply carrying token {:?} of another connection", k, t),
+                        ));
+                    }
+                }
+            }
+        }
     }
     let model = model_stream(&case.cfg, &ro.tx);
     let obs = StreamObs {
@@ -1581,6 +1650,40 @@ pub fn c04_k2_spaces(tier: Tier) -> Vec<Space> {
     spaces
 }
 
+/// raw oneway-rich streams through the real listen loop (the worker's own error path may write too)
+pub fn c04_l_spaces(tier: Tier) -> Vec<Space> {
+    use crate::alphabet::{Flags, Kind};
+    let cfg = SvcCfg::basic();
+    let n = if tier == Tier::Quick { 4_000 } else { 150_000 };
+    vec![Space {
+        name: "L.oneway.random",
+        size: n,
+        exhaustive: false,
+        gen: Box::new(move |_idx, seed| {
+            let mut rng = Rng::new(seed);
+            let full = crate::alphabet::full();
+            let len = rng.range(1, 10) as usize;
+            let kinds: Vec<Kind> = (0..len)
+                .map(|_| {
+                    if rng.chance(1, 2) {
+                        Kind(*rng.pick(crate::alphabet::ALL_BASES), if rng.chance(1, 4) { Flags { more: Some(true), oneway: Some(true), upgrade: None } } else { Flags::ONEWAY })
+                    } else {
+                        *rng.pick(&full)
+                    }
+                })
+                .collect();
+            let s = token_stream(&cfg, &kinds, 0);
+            let depth = rng.range(1, len as u64) as usize;
+            let steps = batch_steps(0, &s, depth, rng.chance(1, 2));
+            let mut conn = LConn::healthy(&s);
+            if rng.chance(1, 3) {
+                conn.srv_read_plan = (0..rng.range(1, 30)).map(|_| rng.range(1, 90) as u16).collect();
+            }
+            Case::L(LCase::single(&cfg, conn, steps, SchedCfg::random(&mut rng, 1)))
+        }),
+    }]
+}
+
 pub fn c01_spaces(tier: Tier) -> Vec<Space> {
     let cfg = SvcCfg::basic();
     let alpha = crate::alphabet::reduced();
@@ -1962,8 +2065,21 @@ pub fn c13_plan(tier: Tier) -> Plan {
                 let mut lc = LCase::single(&cfg, conns[0].clone(), steps, SchedCfg::random(&mut rng, 1));
                 lc.conns = conns;
                 lc.initial = rng.range(1, 3) as usize;
+                // now and then real clients (Connection + MethodCall) talk to the same server
+                let mut nreal = 0;
+                if rng.chance(1, 4) {
+                    nreal = rng.range(1, 3) as usize;
+                    for c in 0..nreal {
+                        let ops: Vec<COp> = (0..rng.range(1, 6)).map(|i| cop_of(&cfg, *rng.pick(&full), &format!("k{}-{}", c, i))).collect();
+                        lc.clients.push(RealClient {
+                            ops,
+                            cli_read_plan: if rng.chance(1, 2) { (0..rng.range(1, 20)).map(|_| rng.range(1, 60) as u16).collect() } else { vec![] },
+                            srv_read_plan: vec![],
+                        });
+                    }
+                }
                 // the property quantifies over connection counts below the worker limit
-                lc.max = nconn + 1 + rng.usize(4);
+                lc.max = nconn + nreal + 1 + rng.usize(4);
                 Case::L(lc)
             }),
         });
